@@ -14,10 +14,22 @@ fn ord(tok: &str) -> Order {
 }
 
 fn do_range(st: &dyn Storage, s: &str, e: &str, o: &str) -> String {
+    do_range_skip(st, s, e, o, 0)
+}
+
+/// `range(..)` consumed the way pagination does: the first `n` records are passed over with `Iterator::nth`
+/// (which `skip` and `step_by` use, and which an iterator may override), the rest is collected
+fn do_range_skip(st: &dyn Storage, s: &str, e: &str, o: &str, n: usize) -> String {
     let s = unhex_opt(s);
     let e = unhex_opt(e);
     let o = ord(o);
-    match guarded(|| st.range(s.as_deref(), e.as_deref(), o).collect::<Vec<_>>()) {
+    match guarded(|| {
+        let mut it = st.range(s.as_deref(), e.as_deref(), o);
+        if n > 0 {
+            it.nth(n - 1);
+        }
+        it.collect::<Vec<_>>()
+    }) {
         Some(r) => fmt_records(&r),
         None => "panic".to_string(),
     }
@@ -130,7 +142,7 @@ fn run_level(
                     None => "panic".into(),
                 });
             }
-            "range" => cur.out.push(do_range(store, t[1], t[2], t[3])),
+            "range" => cur.out.push(do_range_skip(store, t[1], t[2], t[3], t.get(4).and_then(|x| x.parse().ok()).unwrap_or(0))),
             "keys" => cur.out.push(do_range_kv(store, true, t[1], t[2], t[3])),
             "values" => cur.out.push(do_range_kv(store, false, t[1], t[2], t[3])),
             "base-range" => match base {
@@ -209,7 +221,8 @@ pub fn gen_overlay(rng: &mut Rng, thorough: bool) -> Vec<String> {
                 1 => "values",
                 _ => "range",
             };
-            ops.push(format!("{} {} {} {}", op, gen_bound(rng), gen_bound(rng), o));
+            let skip = if op == "range" && rng.chance(1, 4) { format!(" {}", rng.range(1, 3)) } else { String::new() };
+            ops.push(format!("{} {} {} {}{}", op, gen_bound(rng), gen_bound(rng), o, skip));
         } else if r < 94 && depth > 0 {
             let o = if rng.chance(1, 2) { "asc" } else { "desc" };
             ops.push(format!("base-range {} {} {}", gen_bound(rng), gen_bound(rng), o));
@@ -344,8 +357,13 @@ pub fn exec_views(lines: &[String]) -> Vec<String> {
             }
             "vrange" => {
                 let (s, e, o) = (unhex_opt(t[3]), unhex_opt(t[4]), ord(t[5]));
+                let n: usize = t.get(6).and_then(|x| x.parse().ok()).unwrap_or(0);
                 match with_view(&mut app, t[1], t[2] == "rw", |st| {
-                    st.range(s.as_deref(), e.as_deref(), o).collect::<Vec<_>>()
+                    let mut it = st.range(s.as_deref(), e.as_deref(), o);
+                    if n > 0 {
+                        it.nth(n - 1);
+                    }
+                    it.collect::<Vec<_>>()
                 }) {
                     Some(r) => fmt_records(&r),
                     None => "panic".into(),
@@ -500,7 +518,8 @@ pub fn gen_views(rng: &mut Rng, thorough: bool) -> Vec<String> {
                 1 => "vvalues",
                 _ => "vrange",
             };
-            ops.push(format!("{} {} {} {} {} {}", op, p, rw, s, e, o));
+            let skip = if op == "vrange" && rng.chance(1, 4) { format!(" {}", rng.range(1, 3)) } else { String::new() };
+            ops.push(format!("{} {} {} {} {} {}{}", op, p, rw, s, e, o, skip));
         } else {
             let k = gen_raw_key(rng, &key_paths);
             ops.push(format!("base-set {} {}", hex(&k), rng.pick(VALS)));
